@@ -24,6 +24,7 @@ type Config struct {
 	Cuts       map[string]string
 	ModulePath string
 	Verbose    bool
+	BVStr      bool // strings as bounded byte vectors (capacity MaxStrLen)
 	StrBytes   bool // constrain fresh strings to chars < 256
 	MaxStrLen  int  // if >0, every fresh string has length <= MaxStrLen
 	Deadline   time.Time
@@ -520,6 +521,13 @@ func sanitize(s string) string {
 }
 
 func (st *State) freshVar(base string, s Sort) *Term {
+	if s.K == KStr && st.eng.Cfg.BVStr {
+		capn := st.eng.Cfg.MaxStrLen
+		if capn <= 0 {
+			capn = 8
+		}
+		return st.freshBStr(st.freshName(base), capn)
+	}
 	name := st.freshName(base)
 	st.sol.Cmd(fmt.Sprintf("(declare-const %s %s)", name, s.SMT()))
 	st.decls = append(st.decls, namedVar{name, s})
